@@ -72,6 +72,15 @@ def is_set_expr(e, setnames, dictsets):
                 is_set_expr(e.left, setnames, dictsets)
                 or is_set_expr(e.right, setnames, dictsets)):
         return True
+    # set algebra on dict views (d.keys() & other, d.items() - other)
+    # yields a plain set
+    if isinstance(e, ast.BinOp) and isinstance(
+            e.op, (ast.BitOr, ast.BitAnd, ast.Sub, ast.BitXor)) and any(
+                isinstance(o, ast.Call) and isinstance(
+                    o.func, ast.Attribute) and o.func.attr in ('keys',
+                                                               'items')
+                and not o.args for o in (e.left, e.right)):
+        return True
     return False
 
 
@@ -892,6 +901,12 @@ def run(tier):
     chk.guard(rule_r3_resume, chk, prog)
     chk.guard(rule_r4, chk, prog)
     chk.guard(rule_r5, chk, prog)
+    from .. import mutstate
+    chk.guard(mutstate.report, chk, prog, 'C18.R6',
+              'mutators keep no state from one call to the next: their '
+              'protocol methods store nothing on the object, the class or '
+              'module-level containers except option values and constants',
+              'what is remembered depends on which candidates the producer generated before the abort flag became visible: two runs with -j 1 differ')
     extra = None
     if tier == 'thorough':
         from .. import selftest
